@@ -439,3 +439,68 @@ func TestReplayCountOnEmptyIterator(t *testing.T) {
 		t.Fatalf("count %d", n)
 	}
 }
+
+// D13: a doc-value reader whose load of another chunk failed half way keeps the old chunk
+// number over the new (partial) header: documents of the old chunk silently lose their values.
+func TestReplayDocValueCacheAfterFailedLoad(t *testing.T) {
+	var docs []segment.Document
+	for i := 0; i < 1100; i++ {
+		docs = append(docs, &FakeDocument{
+			NewFakeField("_id", fmt.Sprintf("%04d", i), true, false, false),
+			NewFakeField("tag", fmt.Sprintf("t%04d", i), false, false, true),
+		})
+	}
+	s, _, err := newWithChunkMode(docs, encodeNorm, 1024)
+	if err != nil {
+		t.Fatal(err)
+	}
+	f, err := os.CreateTemp("", "d13")
+	if err != nil {
+		t.Fatal(err)
+	}
+	defer os.Remove(f.Name())
+	if _, err = s.(*Segment).WriteTo(f, nil); err != nil {
+		t.Fatal(err)
+	}
+	data, err := segment.NewDataFile(f)
+	if err != nil {
+		t.Fatal(err)
+	}
+	ls, err := load(data)
+	if err != nil {
+		t.Fatal(err)
+	}
+	dvr, _ := ls.DocumentValueReader([]string{"tag"})
+	get := func(n uint64) (out []string, err error) {
+		defer func() {
+			if r := recover(); r != nil {
+				err = fmt.Errorf("panic: %v", r)
+			}
+		}()
+		err = dvr.VisitDocumentValues(n, func(field string, term []byte) { out = append(out, string(term)) })
+		return
+	}
+	_, _ = get(7)
+	before, err := get(5)
+	if err != nil || len(before) != 1 {
+		t.Fatalf("doc 5 before: %v %v", before, err)
+	}
+	// storage starts failing inside the header of chunk 1
+	fid := ls.fieldsMap["tag"] - 1
+	r := ls.fieldDvReaders[fid]
+	pos := int64(r.dvDataLoc + r.chunkOffsets[0] + 40)
+	if err := f.Truncate(pos); err != nil {
+		t.Fatal(err)
+	}
+	_, err = get(1030)
+	t.Logf("doc 1030 after truncation: err=%v", err)
+	after, err := get(5)
+	t.Logf("doc 5 after failed load: %v err=%v", after, err)
+	if err == nil && (len(after) != 1 || after[0] != before[0]) {
+		t.Fatalf("doc 5 after a failed load of another chunk: got %v (err %v), want %v or an error", after, err, before)
+	}
+	if err != nil && len(err.Error()) > 5 && err.Error()[:5] == "panic" {
+		t.Fatalf("panicked: %v", err)
+	}
+}
+
